@@ -329,6 +329,8 @@ class NP2Converter:
         :param overwrite:
         :return:
         """
+        if not Path(self.ap_file).exists():
+            raise FileNotFoundError(self.ap_file)
         if self.np_version == "NP2.4":
             status = self._process_NP24(overwrite=overwrite)
         elif self.np_version == "NP2.1":
